@@ -319,7 +319,8 @@ def copy_structure(
             with _src_fs.lock(), _dst_fs.lock():
                 _dst_fs.makedirs(_dst_root, recreate=True)
                 for dir_path in walker.dirs(_src_fs, _src_root):
-                    _dst_fs.makedir(
+                    # a depth-first walker yields a directory before its parent
+                    _dst_fs.makedirs(
                         combine(_dst_root, frombase(_src_root, dir_path)), recreate=True
                     )
 
